@@ -16,6 +16,12 @@ for e in edit.split('@@@'):
         if r.returncode != 0:
             print("REVERT FAILED", r.stderr); sys.exit(3)
         continue
+    if e.startswith('CHECKOUT:'):
+        _, commit, files = e.split(':', 2)
+        r = subprocess.run(['git', '-C', wt, 'checkout', commit, '--'] + files.split(','), capture_output=True, text=True)
+        if r.returncode != 0:
+            print("CHECKOUT FAILED", r.stderr); sys.exit(3)
+        continue
     f, old, new = e.split('§', 2)
     p = wt + '/' + f
     s = open(p).read()
